@@ -1,6 +1,24 @@
 --------------------------- MODULE SchemaPayloads2 ---------------------------
+(* Operation payloads, part 2 (KMIP 1.x section 4 "Client-to-Server        *)
+(* Operations", KMIP 2.0 section 6.1): object life cycle and retrieval.     *)
 EXTENDS KmipSchemaCore
-SchemaPayloads2T == [ x \in {} |-> <<>> ]
-ClassTagPayloads2 == [ x \in {} |-> "" ]
+
+SchemaPayloads2T == [
+  \* --- Activate (1.0 4.18 / 1.1+ 4.19) -------------------------------------
+  ActivateRequestPayload |-> <<
+      Opt("unique_identifier", "UNIQUE_IDENTIFIER", "text") >>,
+  ActivateResponsePayload |-> <<
+      Req("unique_identifier", "UNIQUE_IDENTIFIER", "text") >>,
+  \* --- Revoke (1.0 4.19 / 1.1+ 4.20) ---------------------------------------
+  RevokeRequestPayload |-> <<
+      Opt("unique_identifier", "UNIQUE_IDENTIFIER", "text"),
+      ReqS("revocation_reason", "REVOCATION_REASON", "RevocationReason"),
+      Opt("compromise_occurrence_date", "COMPROMISE_OCCURRENCE_DATE", "date") >>,
+  RevokeResponsePayload |-> <<
+      Req("unique_identifier", "UNIQUE_IDENTIFIER", "text") >>
+]
+ClassTagPayloads2 == [
+  ActivateRequestPayload |-> "REQUEST_PAYLOAD", ActivateResponsePayload |-> "RESPONSE_PAYLOAD",
+  RevokeRequestPayload |-> "REQUEST_PAYLOAD", RevokeResponsePayload |-> "RESPONSE_PAYLOAD" ]
 ClassSincePayloads2 == [ x \in {} |-> <<10, 20>> ]
 =============================================================================
